@@ -14,11 +14,17 @@ import (
 //go:linkname verifSetDetSeed runtime.verifSetDetSeed
 func verifSetDetSeed(seed uint64)
 
+//go:linkname verifPreemptMe runtime.verifPreemptMe
+func verifPreemptMe(period uint64, seed uint64) uint64
+
 //go:linkname verifSetFreezeRealTimers runtime.verifSetFreezeRealTimers
 func verifSetFreezeRealTimers(b bool)
 
 // mustEnv aborts with exit code 2 (harness trouble, never a violation).
 func fatal2(msg string) {
+	if curWorld != nil && curWorld.j != nil {
+		curWorld.j.flush()
+	}
 	os.Stderr.WriteString("SIMFATAL: " + msg + "\n")
 	os.Exit(2)
 }
@@ -48,6 +54,13 @@ func runBubble(t *testing.T, seed uint64, fn func()) {
 	verifSetFreezeRealTimers(true)
 	defer verifSetFreezeRealTimers(false)
 	startWedgeWatch()
+	// files are read now, while this is the only goroutine: a read is a system call (see journal.logf)
+	switch os.Getenv("VERIF_ENGINE") {
+	case "c01", "c02", "smoke":
+		loadVectors()
+	case "c20":
+		c20BigKeys()
+	}
 	func() {
 		defer func() {
 			if r := recover(); r != nil {
